@@ -118,7 +118,8 @@ STATUSES = [
 ]
 N_QUICK_STATUS = 18
 METHODS = ["GET", "HEAD", "POST"]
-LOCATIONS = [None, "/rel", "http://h/abs", "/é x", "//other/p", "http://bücher.example/ü?q=ä b"]
+LOCATIONS = [None, "/rel", "http://h/abs", "/é x", "//other/p", "http://bücher.example/ü?q=ä b",
+             "/docs#übersicht", "http://ü:ä@h/p;ö?k=v#第一章"]
 PREOPS = ["none", "get_data", "calc"]
 CONSUME = ["all", "nothing", "one"]
 ENV = {m: create_environ(method=m, base_url="http://localhost/app/") for m in METHODS}
